@@ -717,10 +717,6 @@ package machine
 //@   trusted specified with C06; here only its frame matters (subscription indexes)
 //@ func (sm *Subscriptions) HasWhenArgs() (r bool)
 //@   trusted reads the subscription index
-//@ func (m *Machine) PrependMut(mut *Mutation) (r Result)
-//@   trusted specified with C04; here: queues at the front; while a transition runs the queue is not processed (no nesting)
-//@   assigns m.queue, m.queueLen, m.queueToken, mut.QueueLen, mut.QueueToken, mut.QueueTickNow, mut.cacheCalled
-//@   ghostset prepended := ghost.prepended + 1
 //@ func (m *Machine) recoverFinalPhase()
 //@   trusted specified with C08; here: re-ticks through setActiveStates and counts as a fault
 //@   assigns Machine.activeStates, Machine.clock
@@ -769,9 +765,6 @@ package machine
 //@ func (m *Machine) Backoff() (r bool)
 //@   trusted time-based (LastHandlerDeadline vs. the wall clock); treated as a pure function sampled once per call
 //@   pure
-//@ func (m *Machine) queueMutation(mutType MutationType, states S, args A, event *Event) (r uint64)
-//@   trusted specified with C04
-//@   assigns *
 //@ func (m *Machine) processQueue() (r Result)
 //@   trusted specified with C04: runs queued transitions
 //@   assigns *
@@ -826,3 +819,109 @@ package machine
 //@   ensures  auto:    t.Mutation.Type != MutationRemove && t.Mutation.IsAuto && old(t.IsAccepted) ==>
 //@                       (t.IsAccepted <==> (exists x string :: mem(*t.Mutation.cacheCalled, x) && mem(*t.cacheTargetStates, x)))
 //@   loop 1 invariant multi: isMulti <==> (exists j int :: 0 <= j && j < idx1 && t.cacheSchema[called[j]].Multi)
+
+// ---- C04: the queue ----
+
+// QueueInv: queueLen mirrors the queue; queue ticks of pending mutations lie in
+// (queueTick, queueTick + queueTicksPending] and grow along the queue
+// (prepended mutations carry tick 0).
+//@ pred QueueInv(m *Machine) := u32(len(m.queue)) == m.queueLen
+//@   && (forall i int :: 0 <= i && i < len(m.queue) ==> m.queue[i] != nil)
+//@   && (forall i int :: 0 <= i && i < len(m.queue) && m.queue[i].QueueTick > 0 ==> m.queueTick < m.queue[i].QueueTick && m.queue[i].QueueTick <= m.queueTick + m.queueTicksPending)
+//@   && (forall i, j int :: 0 <= i && i < j && j < len(m.queue) && m.queue[i].QueueTick > 0 && m.queue[j].QueueTick > 0 ==> m.queue[i].QueueTick < m.queue[j].QueueTick)
+
+//@ func (m *Machine) detectQueueDuplicates(mutationType MutationType, states S, isCheck bool) (r bool)
+//@   trusted scans the queue for an equal pending mutation (specified only by its frame: reads)
+//@ func (e *Event) Transition() (r *Transition)
+//@   trusted getter of the source machine's current transition
+
+//@ func (m *Machine) queueMutation(mutType MutationType, states S, args A, event *Event) (r uint64)
+//@   props C04 C14
+//@   abstracts tracer callbacks (MutationQueued) and breakpoints are opaque
+//@   requires locks: unlocked(m.schemaMx) && unlocked(m.queueMx) && unlocked(m.tracersMx) && unlocked(m.activeStatesMx)
+//@   requires known: Known(m, states)
+//@   requires inv:   QueueInv(m) && len(m.queue) < 65535 && m.queueTick + m.queueTicksPending < MaxU64
+//@   requires tracers: forall i int :: 0 <= i && i < len(m.tracers) ==> m.tracers[i] != nil
+//@   assigns  m.queue, m.queueLen, m.queueTicksPending, m.queueMx, m.schemaMx, m.tracersMx
+//@   ensures  dup:    r == 0 ==> unchanged(m.queue) && m.queueTicksPending == old(m.queueTicksPending)
+//@   ensures  queued: r != 0 ==> len(m.queue) == old(len(m.queue)) + 1 && (forall i int :: 0 <= i && i < old(len(m.queue)) ==> m.queue[i] == old(m.queue)[i])
+//@                      && fresh(m.queue[len(m.queue) - 1]) && m.queue[len(m.queue) - 1].QueueTick == r && m.queue[len(m.queue) - 1].Type == mutType && !m.queue[len(m.queue) - 1].IsCheck && !m.queue[len(m.queue) - 1].IsAuto
+//@   ensures  tick:   r != 0 ==> r == old(m.queueTick) + old(m.queueTicksPending) + 1 && m.queueTicksPending == old(m.queueTicksPending) + 1
+//@   ensures  inv:    QueueInv(m)
+//@   ensures  locks:  unlocked(m.schemaMx) && unlocked(m.queueMx) && unlocked(m.tracersMx)
+//@   loop 1 invariant locks: unlocked(m.schemaMx)
+//@   loop 2 invariant idx: 0 <= i
+
+//@ func IndexToStates(index S, states []int) (ret S)
+//@   props C20 C04
+//@   requires idx: forall i int :: 0 <= i && i < len(states) ==> states[i] >= -1
+//@   ensures  len: len(ret) == len(states) && fresh(ret)
+//@   ensures  def: forall i int :: 0 <= i && i < len(states) && 0 <= states[i] && states[i] < len(index) ==> ret[i] == index[states[i]]
+//@   loop 1 invariant def: len(ret) == len(states) && fresh(ret) && !isnil(ret) && (forall j int :: 0 <= j && j < i && 0 <= states[j] && states[j] < len(index) ==> ret[j] == index[states[j]])
+
+//@ func (m *Machine) PrependMut(mut *Mutation) (r Result)
+//@   props C04 C07
+//@   abstracts tracer callbacks (MutationQueued) are opaque; processQueue is used through its trusted contract
+//@   requires nn:    mut != nil && mut.QueueTick == 0
+//@   requires called: SchemaInv(m) && (forall i int :: 0 <= i && i < len(mut.Called) ==> 0 <= mut.Called[i] && mut.Called[i] < len(m.stateNames))
+//@   requires locks: unlocked(m.schemaMx) && unlocked(m.queueMx) && unlocked(m.tracersMx)
+//@   requires inv:   QueueInv(m)
+//@   requires tracers: forall i int :: 0 <= i && i < len(m.tracers) ==> m.tracers[i] != nil
+//@   assigns  *
+//@   ghostset prepended := ghost.prepended + (m.disposing ? 0 : 1)
+//@   ensures  disposing: old(m.disposing) ==> r == Canceled && unchanged(m.queue)
+//@   loop 1 invariant idx: 0 <= i
+
+// ---- C06 / C13 / C04: subscriptions ----
+
+//@ func closeSafe[T any](ch chan T)
+//@   trusted closes the channel unless it is already closed (select on a receive); modelled by the closed-channel ghost state
+//@   ensures closed: closed(ch)
+
+// SubsInv: every index map of the subscription manager exists.
+//@ pred SubsInv(sm *Subscriptions) := !isnil(sm.when) && !isnil(sm.whenTime) && !isnil(sm.whenArgs) && !isnil(sm.stateCtx)
+//@   && !isnil(sm.whenCtx) && !isnil(sm.whenTimeCtx) && !isnil(sm.whenArgsCtx) && !isnil(sm.whenQueryCtx)
+
+//@ func NewSubscriptionManager(mach Api, clock Clock, is, not InternalCheckFunc, log InternalLogFunc) (sm *Subscriptions)
+//@   props C06 C20
+//@   ensures inv: sm != nil && fresh(sm) && SubsInv(sm) && unlocked(sm.Mx)
+//@   ensures closed: closed(sm.Closed)
+//@   ensures empty: len(sm.whenQueue) == 0 && len(sm.whenQueueEnds) == 0 && len(sm.whenQuery) == 0
+
+//@ func (sm *Subscriptions) WhenQuery(fn func(clock Clock) bool, ctx context.Context) (ch <-chan struct{})
+//@   props C06 C20
+//@   abstracts ctx.Err() is an opaque interface call
+//@   requires inv:   SubsInv(sm) && unlocked(sm.Mx)
+//@   assigns  sm.whenQuery, sm.whenQueryCtx, sm.Mx
+//@   ensures  locks: unlocked(sm.Mx)
+
+//@ func (sm *Subscriptions) WhenQueue(tick Result) (ch <-chan struct{})
+//@   props C04 C06
+//@   requires locks: unlocked(sm.Mx)
+//@   assigns  sm.whenQueue, sm.Mx
+//@   ensures  added: len(sm.whenQueue) == old(len(sm.whenQueue)) + 1 && (forall i int :: 0 <= i && i < old(len(sm.whenQueue)) ==> sm.whenQueue[i] == old(sm.whenQueue)[i])
+//@   ensures  bound: fresh(sm.whenQueue[len(sm.whenQueue) - 1]) && sm.whenQueue[len(sm.whenQueue) - 1].tick == tick && !closed(sm.whenQueue[len(sm.whenQueue) - 1].ch)
+//@   ensures  locks: unlocked(sm.Mx)
+
+// ProcessWhenQueue: exactly the bindings whose tick has been reached are
+// collected for closing and dropped; the others stay, in order.
+//@ func (sm *Subscriptions) ProcessWhenQueue(queueTick uint64) (toClose []chan struct{})
+//@   props C04 C06
+//@   requires locks: unlocked(sm.Mx)
+//@   requires nn:    forall i int :: 0 <= i && i < len(sm.whenQueue) ==> sm.whenQueue[i] != nil
+//@   assigns  sm.whenQueue, sm.Mx
+//@   ensures  closes: forall i int :: 0 <= i && i < old(len(sm.whenQueue)) && old(sm.whenQueue)[i].tick <= queueTick ==> mem(toClose, old(sm.whenQueue)[i].ch)
+//@   ensures  only:   forall c chan struct{} :: mem(toClose, c) ==> (exists i int :: 0 <= i && i < old(len(sm.whenQueue)) && old(sm.whenQueue)[i].ch == c && old(sm.whenQueue)[i].tick <= queueTick)
+//@   ensures  keeps:  forall i int :: 0 <= i && i < len(sm.whenQueue) ==> sm.whenQueue[i].tick > queueTick
+//@   ensures  locks:  unlocked(sm.Mx)
+//@   loop 1 invariant coll: unlocked(sm.Mx) == false && (forall j int :: 0 <= j && j < i && sm.whenQueue[j].tick <= queueTick ==> mem(toClose, sm.whenQueue[j].ch))
+//@   loop 1 invariant only: forall c chan struct{} :: mem(toClose, c) ==> (exists j int :: 0 <= j && j < i && sm.whenQueue[j].ch == c && sm.whenQueue[j].tick <= queueTick)
+//@   loop 1 invariant idxs: (forall k int :: 0 <= k && k < len(toCloseIdx) ==> 0 <= toCloseIdx[k] && toCloseIdx[k] < i && sm.whenQueue[toCloseIdx[k]].tick <= queueTick) && (forall a, b int :: 0 <= a && a < b && b < len(toCloseIdx) ==> toCloseIdx[a] < toCloseIdx[b])
+//@   loop 1 invariant allidx: forall j int :: 0 <= j && j < i && sm.whenQueue[j].tick <= queueTick ==> mem(toCloseIdx, j)
+//@   loop 2 let orig := sm.whenQueue
+//@   loop 2 invariant len:  len(sm.whenQueue) == len(orig) - idx2 && (forall p int :: 0 <= p && p < len(sm.whenQueue) ==> sm.whenQueue[p] != nil)
+//@   loop 2 invariant desc: (forall a, b int :: 0 <= a && a < b && b < len(toCloseIdx) ==> toCloseIdx[a] > toCloseIdx[b]) && (forall k int :: 0 <= k && k < len(toCloseIdx) ==> 0 <= toCloseIdx[k] && toCloseIdx[k] < len(orig) && orig[toCloseIdx[k]].tick <= queueTick)
+//@   loop 2 invariant all:  forall j int :: 0 <= j && j < len(orig) && orig[j].tick <= queueTick ==> mem(toCloseIdx, j)
+//@   loop 2 invariant low:  forall p int :: 0 <= p && p < (idx2 == 0 ? len(orig) : toCloseIdx[idx2 - 1]) ==> sm.whenQueue[p] == orig[p]
+//@   loop 2 invariant high: idx2 > 0 ==> (forall p int :: toCloseIdx[idx2 - 1] <= p && p < len(sm.whenQueue) ==> sm.whenQueue[p].tick > queueTick)
+//@   loop 2 invariant cap:  idx2 > 0 ==> toCloseIdx[idx2 - 1] <= len(sm.whenQueue)
